@@ -196,8 +196,7 @@ def handleFeedback (ops : FloatOps F) (s : State F) (now : Nat) (fb : Feedback F
         | some t =>
           if now < t then .error .overflow else
           if now - t ≥ rttMs then
-            if 2 * s.sendRate > u32max then .error .overflow else
-            finish { s with mode := .slowStart (some now), sendRate := max (min (2 * s.sendRate) recvLimit) initialRate } none
+            finish { s with mode := .slowStart (some now), sendRate := max (min (satMul2 s.sendRate) recvLimit) initialRate } none
           else finish s none
         | none => finish { s with mode := .slowStart (some now), sendRate := initialRate } none
     | .eqn _ =>
